@@ -230,11 +230,32 @@ func cmdKenforceChild() {
 			pv.Syscalls[i].Action = c.policy.Syscalls[i].Action
 		}
 	}
+	//   +gc    two garbage collections and a burst of allocations of the program's size run between LoadFilter's prctl and
+	//          seccomp steps (schedule-point hook): whatever the kernel is handed must still be the program
+	var keepAlive [][]byte
+	if strings.Contains(c.prober, "+gc") && !strings.Contains(c.prober, "+race") {
+		n := 8
+		if insts, err := c.policy.Assemble(); err == nil {
+			n = 8 * len(insts)
+		}
+		seccomp.SchedPointVerif = func() {
+			runtime.GC()
+			runtime.GC()
+			for i := 0; i < 3000; i++ {
+				b := make([]byte, n)
+				for j := range b {
+					b[j] = 0xff
+				}
+				keepAlive = append(keepAlive, b)
+			}
+		}
+	}
 	me := syscall.Gettid()
 	lerr := seccomp.LoadFilter(seccomp.Filter{NoNewPrivs: c.nnp, Flag: seccomp.FilterFlag(c.flags), Policy: pv})
 	<-raceDone
 	seccomp.ObserveSeccompVerif = nil
 	seccomp.SchedPointVerif = nil
+	runtime.KeepAlive(keepAlive)
 	// the calls made by this thread only
 	mu.Lock()
 	mine := calls[:0:0]
@@ -279,6 +300,23 @@ func cmdKenforceChild() {
 		close(start)
 		<-done
 	} else {
+		// the caller pinned itself to this thread before the load and is still pinned after it: give the scheduler
+		// every reason to move an unpinned goroutine (busy goroutines, sleeps, yields) before probing
+		var stop int32
+		for i := 0; i < 3; i++ {
+			go func() {
+				for atomic.LoadInt32(&stop) == 0 {
+					for k := 0; k < 2000; k++ {
+					}
+					runtime.Gosched() // asynchronous preemption is off in these children
+				}
+			}()
+		}
+		for i := 0; i < 12; i++ {
+			time.Sleep(200 * time.Microsecond)
+			runtime.Gosched()
+		}
+		atomic.StoreInt32(&stop, 1)
 		probe()
 	}
 	atomic.StoreUint32(keU32(mem, kePhase), 3)
